@@ -212,7 +212,10 @@ def step (c impl : String) : String :=
                   let rs := theirs.splitOn "~"
                   -- `rs`: what the cache-less engines answer on the current store (the reference instance, its
                   -- repetitions, and every planner choice for Check items)
-                  if allEq ms && !rs.contains (ms.headD "?") then
+                  -- an answer that IS the reference semantics' answer on the current store cannot be a stale one
+                  -- (the cache-less weighted-graph engine may answer the same request with a condition error or a
+                  -- decision from call to call — finding V2-E; that is C03's business, not staleness)
+                  if allEq ms && !rs.contains (ms.headD "?") && ms.headD "?" ≠ oracles.getD i "" then
                     { t with viol := some s!"HIGHER_CONSISTENCY {opName o} (request #{i}) with {flagNames mask} answered {ms.headD "?"}, the cache-less server on the same store answers {rs.headD "?"} (oracle on the current store: {oracles.getD i ""}): a cache served this request" }
                   else { t with nondet := t.nondet + 1 }   -- an answer the cache-less engine also gives: not staleness
                 | _ => { t with viol := some s!"HIGHER_CONSISTENCY {opName o} (request #{i}) with {flagNames mask} answered {a}, reference {r}" }
